@@ -53,6 +53,42 @@ pub fn run(s: &dyn Subject, ctx: &Ctx) -> Option<DeclReport> {
     } else if let Some(Obs::Ok(v)) = s.default() {
         assert_finite(&mut rep, "Default", "<default>".into(), &v);
     }
+    // Deserialize entry point (serde corpus declarations)
+    if !slice_only && s.de(crate::subject::Fmt::Json, crate::subject::Pos::Bare, b"0").is_some() {
+        let mut work: Vec<(crate::subject::Fmt, crate::subject::Pos, Vec<u8>)> = Vec::new();
+        super::c04::for_each_doc(s, ctx, |f, p, d| work.push((f, p, d.to_vec())));
+        for (f, p, d) in &work {
+            if let Some(Ok(list)) = s.de_ref(*f, *p, d) {
+                if list.iter().any(|v| !v.is_finite_float()) {
+                    rep.guard("nonfinite_offered:Deserialize");
+                }
+            }
+            if let Some(crate::subject::DeObs::Ok(vals)) = s.de(*f, *p, d) {
+                for v in &vals {
+                    assert_finite(&mut rep, "Deserialize", format!("{:?}@{:?}:{}", p, f, String::from_utf8_lossy(d)), v);
+                }
+            }
+        }
+    }
+    // Arbitrary entry point (arbitrary corpus declarations)
+    if !slice_only && s.arb(&[]).is_some() {
+        let mut offer = |bytes: &[u8], rep: &mut DeclReport| {
+            if let Some(crate::subject::ArbObs::Ok(v)) = s.arb(bytes) {
+                assert_finite(rep, "Arbitrary", super::c09::hex(bytes), &v);
+            }
+        };
+        offer(&[], &mut rep);
+        for a in 0..=255u8 {
+            offer(&[a], &mut rep);
+            for b in (0..=255u8).step_by(5) {
+                offer(&[a, b], &mut rep);
+            }
+        }
+        for p in super::c09::pattern_inputs(spec) {
+            offer(&p, &mut rep);
+        }
+        rep.guard("nonfinite_offered:Arbitrary");
+    }
     if ctx.tier == Tier::Thorough && spec.has_tag("sweep32") {
         let (a, b) = ctx.sweep_range();
         for bits in a..b {
